@@ -14,6 +14,7 @@ _P = "TornadoModel.C10."
 THEOREMS = [_P + n for n in [
     "resolved_once", "outcome_stable", "winner_step", "winner_is_first_success", "ok_only_from_success",
     "timeout_only_from_ctick", "fail_only_from_failure_or_tick", "no_new_streams_after_done",
+    "split_keeps_every_entry",
 ]]
 TRUSTED = [
     "asyncio: FIFO order of call_soon callbacks, Future done-callbacks scheduled once, TimerHandle.cancel",
@@ -24,20 +25,26 @@ TRUSTED = [
 ]
 ASSUMPTIONS = [
     "the resolved address list is non-empty (`_Connector([])` raises IndexError in split(); getaddrinfo never returns [])",
+    "the list may repeat a (family, address) entry (hosts file / custom resolvers do); the fake `connect` serves the k-th "
+    "call for one (family, address) as the k-th entry listing it (the code keeps list order inside a family queue)",
     "addresses belong to at most two families (the statement's scope); 'one attempt per family' is per queue otherwise",
     "a connect future completes at most once; completions of a closed stream are not reported by the environment",
     "nobody but the connector completes or cancels the connector's future",
 ]
 RULE = ("address lists of 1-4 entries over two families with per-address synchronous-failure flags, with/without connect "
-        "timeout; schedules of up to 7 events: batches of 1-2 completions (success/failure of the k-th in-flight "
-        "attempt), happy-eyeballs timer, connect timer; quick: random + all schedules of length <=2 for the 15 "
-        "fully asynchronous address lists x connect-timeout on/off; thorough: + all schedules of length <=3. non-trivial = >=2 streams opened and "
-        "the future completed")
+        "timeout; entries may repeat a (family, address) pair (adjacent, non-adjacent, in either family; the same address "
+        "text in both families is two addresses); schedules of up to 7 events: batches of 1-3 completions (success/failure "
+        "of the k-th in-flight attempt), happy-eyeballs timer, connect timer; quick: random (40% with repeated addresses, "
+        "a third of the schedules failure-heavy) + all schedules of length <=2 for the 15 fully asynchronous duplicate-free "
+        "address lists and for the 8 lists of <=3 entries that repeat an address (the 39 such lists of 4 entries: length <=1), "
+        "plus 4 fail-every-attempt schedules per duplicate list, x connect-timeout on/off; thorough: all of these one event "
+        "longer. "
+        "non-trivial = >=2 streams opened and the future completed")
 EXHAUSTIVE = {"quick": False, "thorough": False}
 CLAUSES = {
     "a TCP connect completes exactly once": "resolved_once + outcome_stable (at most once, never changes); that it does complete at quiescence: tie only (Spec clause 6)",
     "with the first connection that succeeded": "winner_is_first_success + winner_step + ok_only_from_success",
-    "or with an error once every address has failed or the timeout fired": "timeout_only_from_ctick + fail_only_from_failure_or_tick; 'every address has failed': tie only (Spec clause 3, error_iff_all_failed_goal)",
+    "or with an error once every address has failed or the timeout fired": "timeout_only_from_ctick + fail_only_from_failure_or_tick; split_keeps_every_entry (the attempt queues hold len(addrinfo) entries, the start value of `remaining`); 'every address has failed' => error, and only then: tie only (Spec clauses 3, 6, 8, error_iff_all_failed_goal)",
     "every other socket it opened is closed": "no_new_streams_after_done; tie only: losers_closed_goal (Spec clause 4)",
     "at most one attempt per address family is in flight at a time": "tie only: one_inflight_per_family_goal (Spec clause 5)",
 }
@@ -58,11 +65,44 @@ def _configs(sync):
                 yield [[f, s] for f, s in zip(fl, sy)]
 
 
-def _rand_event(rng):
+def _partitions(n):
+    """restricted growth strings of length n = the set partitions of n positions"""
+    def go(prefix, mx):
+        if len(prefix) == n:
+            yield list(prefix)
+            return
+        for b in range(mx + 2):
+            yield from go(prefix + [b], max(mx, b))
+    yield from go([], -1)
+
+
+def _dup_configs(sizes=(2, 3, 4)):
+    """every fully asynchronous list [[fam, False, name], ...] (first family 0) in which some (fam, name) pair occurs
+    more than once: per family every partition of its positions into equal-address blocks, block number = name (so
+    the same name also appears in both families, where it is NOT a repetition)"""
+    for n in sizes:
+        for fams in itertools.product([0, 1], repeat=n - 1):
+            fl = [0] + list(fams)
+            pos = [[i for i in range(n) if fl[i] == f] for f in (0, 1)]
+            for p0 in _partitions(len(pos[0])):
+                for p1 in _partitions(len(pos[1])):
+                    names = [0] * n
+                    for i, b in zip(pos[0], p0):
+                        names[i] = b
+                    for i, b in zip(pos[1], p1):
+                        names[i] = b
+                    if len({(fl[i], names[i]) for i in range(n)}) < n:
+                        yield [[fl[i], False, names[i]] for i in range(n)]
+
+
+FAIL_ALL = [["b", [[0, False]]]] * 5      # fail the oldest in-flight attempt, five times: every attempt of <=4 entries
+
+
+def _rand_event(rng, p_ok=0.4):
     k = rng.random()
     if k < 0.62:
         n = 1 if rng.random() < 0.75 else rng.choice([2, 2, 3])
-        return ["b", [[rng.randrange(3), rng.random() < 0.4] for _ in range(n)]]
+        return ["b", [[rng.randrange(3), rng.random() < p_ok] for _ in range(n)]]
     if k < 0.84:
         return ["t"]
     return ["c"]
@@ -77,15 +117,36 @@ def gen_cases(rng, tier):
                 for L in range(0, depth + 1):
                     for ev in itertools.product(ALPHABET, repeat=L):
                         yield {"addrs": addrs, "ct": ct, "events": [list(e) for e in ev], "enum": True}
+        # lists that repeat an address (same family + address: adjacent, non-adjacent, in either family)
+        for addrs in _dup_configs():
+            d = depth if len(addrs) <= 3 else depth - 1
+            for ct in (False, True):
+                for L in range(0, d + 1):
+                    for ev in itertools.product(ALPHABET, repeat=L):
+                        yield {"addrs": addrs, "ct": ct, "events": [list(e) for e in ev], "enum": True}
+                # every attempt fails, one by one: alone / after the fallback timer / then the connect timer
+                for pre, post in (([], []), ([["t"]], []), ([], [["c"]]), ([["b", [[1, False]]]], [])):
+                    yield {"addrs": addrs, "ct": ct, "events": pre + [list(e) for e in FAIL_ALL] + post, "enum": True}
     all_cfg = list(_configs(True))
+    dup_cfg = list(_dup_configs())
     for _ in range(n_rand):
-        if rng.random() < 0.5:
+        k = rng.random()
+        if k < 0.3:
             addrs = rng.choice(all_cfg)
-        else:
+        elif k < 0.6:
             n = rng.randint(1, 4)
             f0 = rng.randrange(2)
             addrs = [[f0 if i == 0 else rng.randrange(2), rng.random() < 0.2] for i in range(n)]
-        yield {"addrs": addrs, "ct": rng.random() < 0.6, "events": [_rand_event(rng) for _ in range(rng.randint(0, 7))]}
+        elif k < 0.8:     # an enumerated duplicate pattern, random synchronous failures
+            addrs = [[f, rng.random() < 0.25, nm] for f, _, nm in rng.choice(dup_cfg)]
+        else:             # names from a small pool: repetitions inside a family and equal names across families
+            n = rng.randint(2, 4)
+            f0 = rng.randrange(2)
+            pool = rng.choice([1, 2, 2, 3])
+            addrs = [[f0 if i == 0 else rng.randrange(2), rng.random() < 0.2, rng.randrange(pool)] for i in range(n)]
+        p_ok = 0.4 if rng.random() < 0.67 else 0.05      # a third of the schedules: (almost) everything fails
+        yield {"addrs": addrs, "ct": rng.random() < 0.6,
+               "events": [_rand_event(rng, p_ok) for _ in range(rng.randint(0, 7))]}
 
 
 # ------------------------------------------------------------------------------------------ implementation
@@ -97,6 +158,7 @@ def run_impl(case):
     from tornado.util import TimeoutError as TTimeout
 
     addrs = case["addrs"]
+    keys = _keys(case)
     events = case["events"]
     first = next((e[0] for e in events if e[0] in ("t", "c")), None)
     errors = []
@@ -125,7 +187,11 @@ def run_impl(case):
         def outcome_of(kind, v):
             if kind == "r":
                 af, addr, st = v
-                return ["ok", addr, streams.index(st) if st in streams else -1]
+                if st not in streams:
+                    return ["ok", -1, -1]
+                # reported as the entry the winning stream was opened for; (af, addr) must be that entry's address
+                pos = st.idx
+                return ["ok", pos if pos < len(keys) and keys[pos] == (af, addr) else -1, streams.index(st)]
             if isinstance(v, TTimeout):
                 return ["timeout"]
             if isinstance(v, IOError) and str(v).startswith("fail-"):
@@ -143,10 +209,18 @@ def run_impl(case):
                 log.append(outcome_of("e", e))
                 return super().set_exception(e)
 
+        calls = {}
+
         def connect(af, addr):
-            fs = FS(addr)
+            # the k-th attempt at (af, addr) is served as the k-th list entry with that address; an attempt for
+            # which no entry is left gets the position len(addrs) (no such entry: Spec clause 7)
+            k = calls.get((af, addr), 0)
+            calls[(af, addr)] = k + 1
+            entries = [i for i, key in enumerate(keys) if key == (af, addr)]
+            pos = entries[k] if k < len(entries) else len(addrs)
+            fs = FS(pos)
             streams.append(fs)
-            if addrs[addr][1]:
+            if pos < len(addrs) and addrs[pos][1]:
                 fs.closed = True
                 fs.fut.set_exception(IOError("fail-%d" % (len(streams) - 1)))
             return fs, fs.fut
@@ -170,7 +244,7 @@ def run_impl(case):
             except Exception as e:      # an exception escaping a loop callback / start()
                 errors.append("raised:" + type(e).__name__)
 
-        conn = _Connector([(a[0], i) for i, a in enumerate(addrs)], connect)
+        conn = _Connector(list(keys), connect)
         conn.future = LogFuture()
         conn.future.add_done_callback(lambda f: f.exception())
         ct_deadline = (t0 + (0.1 if first == "c" else 0.5)) if case["ct"] else None
@@ -212,8 +286,18 @@ def _wev(ev):
     return [atom(ev[0])]
 
 
+def _keys(case):
+    """(family, address) of every entry; an entry without an explicit address [fam, sync] has its own one"""
+    return [(x[0], x[2] if len(x) > 2 else 1000 + i) for i, x in enumerate(case["addrs"])]
+
+
+def _has_dup(case):
+    k = _keys(case)
+    return len(set(k)) < len(k)
+
+
 def _waddrs(case):
-    return [[a[0], atom(bool(a[1]))] for a in case["addrs"]]
+    return [[a[0], atom(bool(a[1])), k[1]] for a, k in zip(case["addrs"], _keys(case))]
 
 
 def _norm(v):
@@ -241,7 +325,7 @@ def impl_view(case, impl):
 
 
 def _obs_ok(impl):
-    return all(o[0] in ("ok", "timeout", "last", "connfailed") and (o[0] != "ok" or o[2] >= 0)
+    return all(o[0] in ("ok", "timeout", "last", "connfailed") and (o[0] != "ok" or (o[1] >= 0 and o[2] >= 0))
                for s in impl["snaps"] for o in s[0])
 
 
@@ -257,7 +341,9 @@ CLAUSE_TEXT = {1: "completed more than once / outcome changed", 2: "did not comp
                3: "completed with an error although not all addresses failed and no timeout fired",
                4: "a stream other than the winner left open (or the winner closed)",
                5: "two attempts in flight for one family", 6: "never completes: nothing in flight, no timer, future pending",
-               7: "a stream opened twice for one address / for an unknown address", 99: "malformed observation"}
+               7: "more streams opened for an address than the list has entries for it / for an unknown address",
+               8: "never completes: every address has failed and nothing is in flight, but the future is still pending",
+               99: "malformed observation"}
 
 
 def spec_violation(case, impl, replies):
@@ -293,6 +379,14 @@ def stats(case, impl):
         out.append("batch>=2")
     if len({a[0] for a in case["addrs"]}) == 2:
         out.append("two-families")
+    if _has_dup(case):
+        k = _keys(case)
+        out.append("dup-address")
+        out.append("dup-adjacent" if any(k[i] == k[i + 1] for i in range(len(k) - 1)) else "dup-non-adjacent")
+        if last[0] and last[0][0][0] in ("last", "connfailed"):
+            out.append("dup-all-failed-error")
+    elif len({x[1] for x in _keys(case)}) < len(case["addrs"]):
+        out.append("same-name-two-families")
     return out
 
 
@@ -310,7 +404,7 @@ def shrink(case):
             yield {**case, "addrs": a[:i] + a[i + 1:]}
     for i, x in enumerate(a):
         if x[1]:
-            yield {**case, "addrs": a[:i] + [[x[0], False]] + a[i + 1:]}
+            yield {**case, "addrs": a[:i] + [[x[0], False] + x[2:]] + a[i + 1:]}
     if case["ct"]:
         yield {**case, "ct": False}
 
